@@ -223,7 +223,7 @@ pub fn init_json(i: &Init) -> Value {
             "stages": i.stages.iter().enumerate().map(|(k, s)| stage_json(true, k, s)).collect::<Vec<_>>(),
             "member_limit": i.limit, "whale_cap": i.whale, "admins": names(&i.admins), "admins_mutable": i.mutable}),
         Kind::Immutable => json!({
-            "addresses": members_json(false, &one), "per_address_limit": i.pal, "mint_discount_bps": null}),
+            "addresses": members_json(false, &one), "per_address_limit": i.pal, "mint_discount_bps": i.whale}),
     }
 }
 
@@ -340,6 +340,22 @@ impl World {
             Ok(Ok(v)) => Ok(v),
             Ok(Err(e)) => Err(e.to_string()),
             Err(p) => Err(p),
+        }
+    }
+
+    /// CanExecute { sender, msg }: None when the query fails (malformed sender)
+    pub fn can_execute(&self, a: u64) -> Option<bool> {
+        let msg = json!({"bank": {"send": {"to_address": name(60), "amount": []}}});
+        self.query(&json!({"can_execute": {"sender": name(a), "msg": msg}})).ok().and_then(|v| v["can_execute"].as_bool())
+    }
+    /// AdminList: (admins, mutable)
+    pub fn admin_list(&self) -> (Vec<u64>, bool) {
+        match self.query(&json!({"admin_list": {}})) {
+            Ok(v) => (
+                v["admins"].as_array().map(|a| a.iter().map(|x| id_of(x.as_str().unwrap_or(""))).collect()).unwrap_or_default(),
+                v["mutable"].as_bool().unwrap_or(false),
+            ),
+            Err(_) => (vec![9999], false),
         }
     }
 
